@@ -1,7 +1,7 @@
 #!/bin/bash
 # usage: tools/seedrun.sh <patch.diff> <check args...>   -- applies the patch to /repo, runs ./check, always reverts
 set -u
-p=$1; shift
+p=$(realpath $1); shift
 cd /repo && git diff --quiet || { echo "/repo not clean"; exit 9; }
 git -C /repo apply "$p" || { echo "patch does not apply"; exit 9; }
 cd /verif && ./check "$@"; rc=$?
